@@ -379,8 +379,8 @@ Section Unaff.
       set (res := apply_fault k cl) in *. set (sF2 := if rs_err res then add_errored sF1 (f_id f) else sF1) in *.
       assert (HdF2 : ls_data sF2 = ls_data sF) by (subst sF2; destruct (rs_err res); reflexivity).
       assert (Hsm : ls_data (merge_result f res (select_items (ls_data sF) (f_path f)) batchF sF2) = ls_data sF).
-      { rewrite <- HdF2. subst res cl. specialize (Hloud _ _ EF). rewrite Hk in Hloud.
-        apply (proj1 (proj2 (loud_outcome answer root_answer f k _ _ _ _ _ _ sF2 Hrobj Hd Hloud HP))). }
+      { subst res cl. specialize (Hloud _ _ EF). rewrite Hk in Hloud.
+        rewrite (proj1 (proj2 (loud_outcome answer root_answer f k _ _ _ _ _ sF2 Hrobj Hd Hloud HP))). exact HdF2. }
       destruct (Hsame _ Hsm) as [A B]. split; [exact A|]. split; [exact B|]. intros E. discriminate. }
     (* unfaulted: the clean response *)
     assert (HsD : sub_b (ls_data sF) D = true) by (eapply sub_trans; [exact (R_sub _ _ HR)|exact Hinfl0]).
